@@ -11,6 +11,7 @@ pub mod c13;
 pub mod c14;
 pub mod c15;
 pub mod c17;
+pub mod c18;
 
 use crate::engine::Prop;
 
@@ -29,6 +30,7 @@ pub fn get(id: &str) -> Option<Box<dyn Prop>> {
     "C14" => Some(Box::new(c14::C14)),
     "C15" => Some(Box::new(c15::C15)),
     "C17" => Some(Box::new(c17::C17)),
+    "C18" => Some(Box::new(c18::C18)),
     _ => None,
   }
 }
